@@ -230,7 +230,8 @@ func newFinishedHash(version uint16, cipherSuite *cipherSuite) finishedHash {
 		prf = prfAndHashForGM()
 		return finishedHash{sm3.New(), sm3.New(), nil, nil, buffer, version, prf}
 	} else {
-		prf, hash := prfAndHashForVersion(version, cipherSuite)
+		var hash crypto.Hash
+		prf, hash = prfAndHashForVersion(version, cipherSuite)
 		if hash != 0 {
 			return finishedHash{hash.New(), hash.New(), nil, nil, buffer, version, prf}
 		}
